@@ -914,6 +914,7 @@ def load_backend(repo, tag):
     lls, funcs = read_module(repo, fname)
     ext, local = node_returning(lls, funcs)
     consts = set()
+    dl = []
     if decl:
         dl = logical_lines(open(os.path.join(repo, 'dd', decl)).read())
         e2, _ = node_returning(dl, [])
@@ -923,7 +924,7 @@ def load_backend(repo, tag):
             if m:
                 consts.add(m.group(1))
     return dict(tag=tag, file=fname, cls=cls, prefix=prefix, lls=lls, funcs=funcs,
-                ext=ext, local=local, node_consts=consts)
+                ext=ext, local=local, node_consts=consts, decl_lls=dl)
 
 
 def arity_of(op, abc_):
@@ -1163,7 +1164,7 @@ class _PathEnd(Exception):
 
 
 class PState:
-    __slots__ = ('env', 'events', 'nid', 'names', 'nullness', 'done', 'loopctl', 'conds', 'ntok')
+    __slots__ = ('env', 'events', 'nid', 'names', 'nullness', 'done', 'loopctl', 'conds', 'ntok', 'origin')
 
     def __init__(self):
         self.env = {}
@@ -1175,6 +1176,7 @@ class PState:
         self.loopctl = None    # 'break' / 'continue'
         self.conds = {}        # source of a test over plain local names -> its value on this path
         self.ntok = 0          # Python containers created so far on this path
+        self.origin = {}       # local name -> text of the call whose result it was bound to
 
     def copy(self):
         p = PState()
@@ -1187,6 +1189,7 @@ class PState:
         p.loopctl = self.loopctl
         p.conds = dict(self.conds)
         p.ntok = self.ntok
+        p.origin = dict(self.origin)
         return p
 
     def new(self, name):
@@ -1237,11 +1240,95 @@ class Tracer:
             for n in ast.walk(st):
                 if isinstance(n, ast.Name) and isinstance(n.ctx, ast.Store):
                     self.locals.add(n.id)
+        # places where an exception raised INSIDE a callee (or by a subscript of a Python object) may
+        # leave the function: numbered per label in source order, `callee#k`
+        self.c_names = mod.get('c_names', set())
+        self.noraise_local = mod.get('noraise_local', set())
+        self.cptrs = c_pointer_names(func)
+        self.typed = typed_locals(func, stmts)
+        self.pending = []       # exceptional exits met while evaluating the current expression
+        self.site = {}
+        sites = []
+        for st in stmts:
+            for n in ast.walk(st):
+                if isinstance(n, (ast.Call, ast.Subscript, ast.ListComp, ast.SetComp, ast.DictComp,
+                                  ast.GeneratorExp)):
+                    sites.append(n)
+                elif isinstance(n, ast.Name) and isinstance(n.ctx, ast.Store) and n.id in self.typed:
+                    sites.append(n)
+        sites.sort(key=lambda n: (n.lineno, n.col_offset, -(n.end_lineno or 0), -(n.end_col_offset or 0)))
+        seen = {}
+        for n in sites:
+            lab = _call_label(n, self.cname)
+            k = seen.get(lab, 0)
+            seen[lab] = k + 1
+            self.site[id(n)] = f'{lab}#{k}'
 
     def cname(self, fn):
         if self.prefix and fn.startswith(self.prefix + '.'):
             return fn[len(self.prefix) + 1:]
         return fn
+
+    # -- exceptions raised inside callees -------------------------------------------
+    def may_raise(self, n):
+        """The call / subscript `n` may raise a Python exception (by its NAME only: C functions and
+        the module's `cdef` functions that provably cannot raise are exempt)."""
+        if isinstance(n, ast.Call):
+            fn = _dotted(n.func)
+            if fn is None:
+                return True
+            cn = self.cname(fn)
+            last = fn.rsplit('.', 1)[-1]
+            if '.' not in cn and cn in self.c_names and (not self.prefix or fn != cn or cn in ('sizeof',)
+                                                         or cn in self.mod.get('cimported', ())):
+                return False
+            if '.' not in fn and fn in self.locals:
+                return True
+            if fn in NORAISE_BUILTINS:
+                return False
+            if ('.' not in fn or fn == 'self.' + last) and last in self.noraise_local:
+                return False
+            if last in self.always_raise:
+                return False        # the statement itself ends the path with `raise`
+            return True
+        if isinstance(n, ast.Subscript):
+            root = n.value
+            while isinstance(root, (ast.Attribute, ast.Subscript)):
+                root = root.value
+            if isinstance(root, ast.Name) and root.id in self.cptrs:
+                return False        # C pointer arithmetic
+            if isinstance(root, ast.UnaryOp):
+                return False        # a cast
+            return True
+        if isinstance(n, ast.Name):
+            return n.id in self.typed
+        return any(self.may_raise(x) for x in ast.walk(n) if isinstance(x, (ast.Call, ast.Subscript)) and x is not n)
+
+    def raise_point(self, n, p):
+        """An exception raised inside the callee at `n` leaves the current path here: the arguments
+        were evaluated, the call had no effect on the references of THIS function."""
+        if p.done or not self.may_raise(n):
+            return
+        q = p.copy()
+        q.events.append(('raiseIn', self.site.get(id(n), '<?>#0'), n.lineno))
+        q.done = True
+        self.pending.append(q)
+
+    def first_raising(self, nodes):
+        """First call / subscript (source order) among the statements `nodes` that may raise."""
+        best = None
+        for s_ in nodes:
+            for n in ast.walk(s_):
+                if (isinstance(n, (ast.Call, ast.Subscript)) or (
+                        isinstance(n, ast.Name) and isinstance(n.ctx, ast.Store))) and self.may_raise(n):
+                    key = (n.lineno, n.col_offset)
+                    if best is None or key < best[0]:
+                        best = (key, n)
+        return None if best is None else best[1]
+
+    def take_exits(self):
+        out, self.pending = self.pending, []
+        return out
 
     # -- driver -----------------------------------------------------------------
     def paths(self):
@@ -1268,6 +1355,7 @@ class Tracer:
                     p.events.append(e.ev)
                     p.done = True
                     nxt.append(p)
+                nxt.extend(self.take_exits())
             states = nxt
             if len(states) > MAX_PATHS:
                 raise Uncovered('too many paths')
@@ -1317,6 +1405,7 @@ class Tracer:
                 if isinstance(n, ast.Name):
                     # `k += 1`: whatever was known about `k` (and the value bound to it) is gone
                     if isinstance(t, ast.Name):
+                        self.drop(n.id, p)
                         p.env[n.id] = ('other',)
                     self.forget(n.id, p)
             return [p]
@@ -1371,7 +1460,8 @@ class Tracer:
                 self.ev(it.context_expr, p)
                 if it.optional_vars is not None:
                     self.bind_opaque(it.optional_vars, p)
-            return self.block(st.body, [p])
+            early = self.take_exits()
+            return self.block(st.body, [p]) + early
         if isinstance(st, ast.Break):
             p.loopctl = 'break'
             return [p]
@@ -1382,6 +1472,8 @@ class Tracer:
             for t in st.targets:
                 for n in ast.walk(t):
                     if isinstance(n, ast.Name):
+                        if isinstance(t, ast.Name):
+                            self.drop(n.id, p)
                         self.forget(n.id, p)
             return [p]
         if isinstance(st, (ast.FunctionDef, ast.ClassDef)):
@@ -1392,8 +1484,21 @@ class Tracer:
 
     def bind(self, target, v, p, st):
         if isinstance(target, ast.Name):
+            val0 = getattr(st, 'value', None)
+            d0 = _dotted(val0.func) if isinstance(val0, ast.Call) else None
+            declared = (d0 is not None and d0.startswith('self.') and d0.count('.') == 1
+                        and (self.func.cls, d0[5:]) in self.mod.get('returns_typed', ()))
+            if target.id in self.typed and v[0] != 'handle' and not declared:
+                self.raise_point(target, p)     # `g = dvars[var]` with `g: Function`: a type test
+            self.drop(target.id, p)
             p.env[target.id] = v
             self.forget(target.id, p)
+            # `f = self.var(x)`: the result of a call that the reader does not look into -- possibly a
+            # handle that only this name keeps alive
+            val = getattr(st, 'value', None)
+            direct = target is getattr(st, 'target', None) or any(target is t for t in getattr(st, 'targets', ()))
+            if direct and isinstance(val, ast.Call) and v[0] == 'other' and _dotted(val.func) is not None:
+                p.origin[target.id] = _dotted(val.func)
             if v[0] == 'node':
                 p.names[v[1]] = target.id
             return
@@ -1410,6 +1515,7 @@ class Tracer:
             if isinstance(target, ast.Subscript):
                 base = self.ev(target.value, p)
                 self.ev(target.slice, p)
+                self.raise_point(target, p)
                 if self.is_cont(base):
                     # `vector[i] = g.node`, `table[t] = <stdint.uintptr_t>r`
                     x = self.node_of(v, p)
@@ -1462,6 +1568,7 @@ class Tracer:
                 known = (p.nullness[x] == pos)
         else:
             self.ev(st.test, p)
+        early = self.take_exits()
         dead = self.refcount_test(st.test, p) if nt is None else None
         ft = self.field_test(st.test)
         guard = None
@@ -1490,7 +1597,7 @@ class Tracer:
             if dead is not None and branch:
                 q.events.append(('refNonPos', dead))
             out.extend(self.block(body, [q]))
-        return out
+        return out + early
 
     @staticmethod
     def int_const(e):
@@ -1644,8 +1751,14 @@ class Tracer:
             self.ev(st.iter, p)
         else:
             self.ev(st.test, p)
+        early = self.take_exits()
         if not relevant:
-            # the body cannot touch references: skip it (names it binds become opaque)
+            # the body cannot touch references: skip it (names it binds become opaque) -- but
+            # something in it may raise while the function holds what it held at the loop's entry
+            n = self.first_raising(st.body)
+            if n is not None:
+                self.raise_point(n, p)
+                early += self.take_exits()
             for s in st.body:
                 for n in ast.walk(s):
                     if isinstance(n, ast.Name) and isinstance(n.ctx, ast.Store):
@@ -1656,19 +1769,33 @@ class Tracer:
             if isinstance(st, ast.For):
                 self.bind_opaque(st.target, p)
             if not relevant:
-                return [p]
-        out = []
+                return [p] + early
+        out = list(early)
+        # C arrays of this function that the body stores into: which slots get filled is not
+        # followed, only whether the loop runs until its iterator is exhausted
+        fills = []
+        for s in st.body:
+            for n in ast.walk(s):
+                if isinstance(n, ast.Subscript) and isinstance(n.ctx, ast.Store) and isinstance(n.value, ast.Name):
+                    v = p.env.get(n.value.id)
+                    if v is not None and v[0] == 'cont' and v[1] not in fills:
+                        fills.append(v[1])
+        for c in fills:
+            p.events.append(('fillBegin', c))
         states = [p]
         for _ in range(3):     # 0, 1, 2 iterations
             exits = []
             nxt = []
             for q in states:
                 e = q.copy()
+                for c in fills:
+                    e.events.append(('fillEnd', c))
                 exits.append(e)
             out.extend(exits)
             if _ == 2:
                 break
             for q in states:
+                q.events.append(('iterBegin',))
                 if isinstance(st, ast.For):
                     self.bind_opaque(st.target, q)
                 res = self.block(st.body, [q])
@@ -1677,18 +1804,33 @@ class Tracer:
                         out.append(r)
                     elif r.loopctl == 'break':
                         r.loopctl = None
+                        r.events.append(('iterBreak',))
                         out.append(r)
                     else:
                         r.loopctl = None
+                        r.events.append(('iterEnd',))
                         nxt.append(r)
             states = nxt
             if len(out) + len(states) > MAX_PATHS:
                 raise Uncovered('too many paths')
         return out
 
+    def drop(self, name, p):
+        """The local `name` is rebound or deleted: a handle it was bound to (the result of a call) is
+        gone, and with it the protection of the nodes reached through it (`name.node`)."""
+        via = p.origin.pop(name, None)
+        if via is None:
+            return
+        key = ('param', name + '.node')
+        if key in p.env and p.env[key][0] == 'node':
+            p.events.append(('handleDrop', p.env[key][1], via))
+
     def bind_opaque(self, target, p):
         for n in ast.walk(target):
             if isinstance(n, ast.Name):
+                if n.id in self.typed and isinstance(n.ctx, ast.Store):
+                    self.raise_point(n, p)      # `for i, f in enumerate(functions)` with `f: Function`
+                self.drop(n.id, p)
                 p.env[n.id] = ('other',)
                 self.forget(n.id, p)
 
@@ -1738,9 +1880,28 @@ class Tracer:
                         c = self.cname(_dotted(n.func) or '')
                         if c in REF_FNS or c in DEREF_FNS:
                             raise Uncovered(f'line {st.lineno}: try/except around reference events')
-            for h in st.handlers:
-                q = entry.copy()
-                outs.extend(self.block(h.body, [q]))
+            # the exceptional exits of the body (an explicit `raise`, an exception raised inside a
+            # callee) reach the handlers; a handler that names an exception type may or may not match
+            exits = [q for q in body if q.done and q.events and q.events[-1][0] in ('raise', 'raiseIn')]
+            catch_all = any(h.type is None or _dotted(h.type) in ('Exception', 'BaseException')
+                            for h in st.handlers)
+            if exits:
+                if catch_all:
+                    outs = [q for q in body if not any(q is e for e in exits)]
+                for e in exits:
+                    for h in st.handlers:
+                        q = e.copy()
+                        q.events.pop()
+                        q.done = False
+                        if h.name:
+                            q.env[h.name] = ('other',)
+                        outs.extend(self.block(h.body, [q]))
+                        if h.type is None or _dotted(h.type) in ('Exception', 'BaseException'):
+                            break
+            else:
+                for h in st.handlers:
+                    q = entry.copy()
+                    outs.extend(self.block(h.body, [q]))
         elif st.finalbody and any(isinstance(n, ast.Call) for n in ast.walk(st.body[0])):
             # `try: r = f(…) finally: …` without handlers: the first statement of the body raises
             # (a `cdef … except NULL` function of the module, a Python call) before it had any
@@ -1885,6 +2046,7 @@ class Tracer:
         if isinstance(e, ast.Subscript):
             b = self.ev(e.value, p)
             self.ev(e.slice, p)
+            self.raise_point(e, p)
             if self.is_cont(b) and self.holds_nodes(b) and (cast or not self.is_python_cont(b)):
                 # `vector[index]`, `<DdRef><stdint.uintptr_t>table[t]`: an element the container refers
                 # to (a Python container may hold anything: only what is cast back to a node counts)
@@ -1905,6 +2067,8 @@ class Tracer:
         if isinstance(e, (ast.Lambda, ast.ListComp, ast.SetComp, ast.DictComp, ast.GeneratorExp)):
             if _has_relevant_call(e, self):
                 raise Uncovered(f'line {e.lineno}: node events inside a nested scope')
+            if not isinstance(e, ast.Lambda):
+                self.raise_point(e, p)      # `{k: self.var(v) for k, v in d.items()}` runs here
             return ('other',)
         if isinstance(e, ast.IfExp):
             self.ev(e.test, p)
@@ -1931,6 +2095,7 @@ class Tracer:
             if any(self.is_ref_carrier(v) for v in vals):
                 raise Uncovered(f'line {c.lineno}: a node or a handle is passed to a computed callee '
                                 f'`{_src(c.func)}`')
+            self.raise_point(c, p)
             return ('other',)
         cn = self.cname(fn)
         last = fn.rsplit('.', 1)[-1]
@@ -1941,13 +2106,14 @@ class Tracer:
             if any(self.is_ref_carrier(v) for v in vals):
                 raise Uncovered(f'line {c.lineno}: a node or a handle is passed to `{fn}`, '
                                 'a local name (an alias of some function)')
+            self.raise_point(c, p)
             return ('other',)
         # arrays and Python containers
         if cn in ALLOC_FNS and not nodes_array:
             # an array of something else (`int *`, `char **`): not followed
             for a in c.args:
                 self.ev(a, p)
-            return ('other',)
+            return ('other', 'carray')
         if cn in ALLOC_FNS:
             size = c.args[0] if c.args else None
             if (isinstance(size, ast.BinOp) and isinstance(size.op, ast.Mult)
@@ -1988,6 +2154,7 @@ class Tracer:
                 else:
                     raise Uncovered(f'line {c.lineno}: {last} applied to a value that is not followed '
                                     f'(`{_src(a)}`)')
+                self.raise_point(c, p)
                 p.events.append((kind, x, last))
                 return ('other',)
             nodes = [(v, a) for v, a in zip(vals, c.args) if v[0] in ('node', 'param')]
@@ -2008,10 +2175,12 @@ class Tracer:
             self.ev(c.args[0], p) if len(c.args) == 2 else None
             v = self.ev(c.args[-1], p)
             if v[0] == 'null':
+                self.raise_point(c, p)
                 return ('handle', None)
             x = self.as_node(v, c.args[-1], p)
             if x is None:
                 raise Uncovered(f'line {c.lineno}: wrap of an untracked value')
+            self.raise_point(c, p)
             p.events.append(('wrap', x))
             return ('handle', x)
         if last == 'init' and '.' in fn and len(c.args) == 2 and self.func.name == 'wrap':
@@ -2019,6 +2188,7 @@ class Tracer:
             x = self.as_node(v, c.args[0], p)
             if x is None:
                 raise Uncovered(f'line {c.lineno}: init of an untracked value')
+            self.raise_point(c, p)
             p.events.append(('initCall', x))
             return ('other',)
         # producers
@@ -2032,6 +2202,7 @@ class Tracer:
                     args.append(self.as_node(v, a, p))
                 elif self.is_cont(v) and self.holds_nodes(v):
                     p.events.append(('passC', self.as_cont(v, p), cn))
+            self.raise_point(c, p)
             x = p.new(cn)
             p.events.append(('produce', x, cn, tuple(args)))
             return ('node', x, 'call')
@@ -2056,6 +2227,7 @@ class Tracer:
             # defined in this module: it may take or give back a reference
             raise Uncovered(f'line {c.lineno}: a node is passed to `{fn}`, which is neither declared nor '
                             'defined in the module')
+        self.raise_point(c, p)
         return ('other',)
 
     def is_ref_carrier(self, v):
@@ -2149,10 +2321,174 @@ def known_callees(repo, mod):
     return names
 
 
+
+# ---------------------------------------------------------------------------
+# which calls may raise a Python exception
+# ---------------------------------------------------------------------------
+
+# modules of the C standard library / of CPython's C API whose cimported names are plain C
+# functions (they report failure through their return value, never through a Python exception)
+C_CIMPORT_MODULES = ('libc.', 'cpython.mem')
+# builtins that do not raise on what these files give them (a C integer, a set / dict / list that
+# is iterated anyway; iteration itself is not a raise point either)
+NORAISE_BUILTINS = ('isinstance', 'range', 'enumerate')
+# extension types of the wrappers: binding a local that is DECLARED with one of them (`g: Function`,
+# `cdef Function f`) to a value that is not known to be such an object is a run-time type test,
+# which raises `TypeError`
+TYPETEST_TYPES = ('Function',)
+
+
+def cimported_c_names(lls):
+    """Names brought in by `from libc.stdio cimport fopen, fclose` / `from cpython.mem cimport
+    PyMem_Malloc, PyMem_Free`."""
+    out = set()
+    for ll in lls:
+        m = re.match(r'^from\s+([\w.]+)\s+cimport\s+(.*)$', ll.text)
+        if not m:
+            continue
+        modname = m.group(1)
+        if not (modname + '.').startswith(C_CIMPORT_MODULES):
+            continue
+        for part in m.group(2).strip('()').split(','):
+            part = part.strip()
+            if not part:
+                continue
+            mm = re.match(r'^(\w+)(?:\s+as\s+(\w+))?$', part)
+            if mm:
+                out.add(mm.group(2) or mm.group(1))
+    return out
+
+
+def _call_label(node, cname):
+    """Label of a call site / a subscript, used to number the places where an exception may leave."""
+    if isinstance(node, ast.Call):
+        fn = _dotted(node.func)
+        if fn is None:
+            return '?.' + node.func.attr if isinstance(node.func, ast.Attribute) else '<computed>'
+        return cname(fn)
+    if isinstance(node, ast.Subscript):
+        return 'getitem' if isinstance(node.ctx, ast.Load) else 'setitem'
+    if isinstance(node, ast.Name):
+        return 'typetest'
+    return '<comprehension>'
+
+
+def typed_locals(f, stmts):
+    """Locals declared with an extension type of the module (`g: Function`, `cdef Function f`)."""
+    out = set()
+    for st in stmts:
+        for n in ast.walk(st):
+            if isinstance(n, ast.AnnAssign) and isinstance(n.target, ast.Name) \
+                    and _dotted(n.annotation) in TYPETEST_TYPES:
+                out.add(n.target.id)
+    for ll in f.body:
+        m = re.match(r'^cdef\s+(' + '|'.join(TYPETEST_TYPES) + r')\s+([A-Za-z_]\w*)\s*(?:=.*)?$', ll.text)
+        if m:
+            out.add(m.group(2))
+    return out
+
+
+def c_pointer_names(f):
+    """Parameters and `cdef` locals of a function whose declared type is a C pointer (or a node):
+    indexing them is C pointer arithmetic, which cannot raise."""
+    out = set()
+    for n, t, _d in f.params:
+        if '*' in t or t in NODE_TYPES:
+            out.add(n)
+    for ll in f.body:
+        m = re.match(r'^cdef\s+[\w.\s]*?(\*+)\s*([A-Za-z_]\w*)\s*(?:=.*)?$', ll.text)
+        if m:
+            out.add(m.group(2))
+    return out
+
+
+def classify_raising(mod):
+    """`mod['c_names']`: names that denote plain C functions (declared in a `cdef extern` block or the
+    `.pxd`, cimported from libc / cpython.mem, `sizeof`): a call of one of them cannot raise a Python
+    exception.  `mod['noraise_local']`: `cdef` functions DEFINED in the module that cannot raise:
+    declared `noexcept`, or without any `raise` / `assert` statement and calling only C functions
+    and other such functions (least fixed point of "may raise").  Everything else -- Python-level
+    calls, `wrap`, methods of `self`, `_utils.*`, builtins, subscripts of Python objects -- may raise."""
+    _t, _f, _c, _p, decl = next(b for b in BACKENDS if b[0] == mod['tag'])
+    mod['cimported'] = cimported_c_names(mod['lls'])
+    c_names = extern_function_names(mod['lls']) | mod['cimported'] | {'sizeof'}
+    if decl:
+        c_names |= extern_function_names(mod['decl_lls'])
+    c_names |= set(REF_FNS) | set(DEREF_FNS)
+    mod['c_names'] = c_names
+    prefix = mod['prefix']
+
+    def cname(fn):
+        return fn[len(prefix) + 1:] if prefix and fn.startswith(prefix + '.') else fn
+
+    cands = {}
+    for f in mod['funcs']:
+        if f.kind != 'cdef':
+            continue
+        if re.search(r'\bnoexcept\b', f.trailer):
+            cands[f.name] = set()
+            continue
+        stmts, _err = body_ast(f)
+        if stmts is None:
+            continue
+        ptrs = c_pointer_names(f)
+        callees = set()
+        bad = False
+        for st in stmts:
+            for n in ast.walk(st):
+                if isinstance(n, (ast.Raise, ast.Assert, ast.With, ast.For, ast.ListComp, ast.SetComp,
+                                  ast.DictComp, ast.GeneratorExp, ast.JoinedStr, ast.BinOp, ast.Import,
+                                  ast.ImportFrom, ast.Delete, ast.Try)):
+                    bad = True
+                elif isinstance(n, ast.Call):
+                    fn = _dotted(n.func)
+                    if fn is None:
+                        bad = True
+                    else:
+                        callees.add(fn)
+                elif isinstance(n, ast.Subscript):
+                    root = n.value
+                    while isinstance(root, (ast.Attribute, ast.Subscript)):
+                        root = root.value
+                    if not (isinstance(root, ast.Name) and root.id in ptrs):
+                        bad = True
+        if not bad:
+            cands[f.name] = callees
+    # names defined more than once (methods of different classes): keep only if all agree
+    counts = {}
+    for f in mod['funcs']:
+        counts[f.name] = counts.get(f.name, 0) + 1
+    ok = {n for n in cands if counts.get(n, 0) == 1}
+    changed = True
+    while changed:
+        changed = False
+        for n in sorted(ok):
+            for fn in cands[n]:
+                last = fn.rsplit('.', 1)[-1]
+                c = cname(fn)
+                if c in c_names and ('.' not in c):
+                    continue
+                if ('.' not in fn or fn == 'self.' + last) and last in ok:
+                    continue
+                ok.discard(n)
+                changed = True
+                break
+    mod['noraise_local'] = ok
+    # methods that are DECLARED to return an extension type of the module (`cpdef Function var(…)`):
+    # binding the result of `self.var(…)` to a local of that type, in a method of the same class,
+    # needs no test
+    rets = {}
+    for f in mod['funcs']:
+        if f.qual == f'{f.cls}.{f.name}':
+            rets.setdefault((f.cls, f.name), set()).add(f.ret)
+    mod['returns_typed'] = {n for n, r in rets.items() if r <= set(TYPETEST_TYPES)}
+
+
 def ref_traces(repo, mod):
     """(methods, uncovered): methods = [dict(name, line, role, returns_node, paths, names)]."""
     mod['known_callees'] = known_callees(repo, mod)
     mod['always_raise'] = always_raising_helpers(repo)
+    classify_raising(mod)
     funcs = mod['funcs']
     has_wrap = any(f.qual == 'wrap' for f in funcs)
     decl = set()
@@ -2236,6 +2572,14 @@ def lean_event(ev):
         return f'.{k}'
     if k == 'raise':
         return f'.raise {_ls(ev[1])}'
+    if k == 'raiseIn':
+        return f'.raiseIn {_ls(ev[1])} {ev[2]}'
+    if k in ('fillBegin', 'fillEnd'):
+        return f'.{k} {ev[1]}'
+    if k == 'handleDrop':
+        return f'.handleDrop {ev[1]} {_ls(ev[2])}'
+    if k in ('iterBegin', 'iterEnd', 'iterBreak'):
+        return f'.{k}'
     if k == 'alloc':
         return f'.alloc {ev[1]} {_ls(ev[2])} {_ls(ev[3])}'
     if k in ('cnew', 'cparam', 'passC', 'free'):
